@@ -190,18 +190,21 @@ theorem SentInv.step {L : Uri → Option Doc} {s s' : State} {e : Event} (hp : p
     refine ⟨hi.live, hi.last, ?_, hi.uri⟩
     intro x d hd
     exact hi.chk x d (lookup_erase_some hd).1
+  | configLock =>
+    apply frame <;>
+    · simp only [Srv.step] at hs
+      repeat' (split at hs)
+      all_goals first | (simp at hs; done) | (cases hs; rfl)
   | config live order =>
     simp only [plain] at hp
     subst hp
     simp only [Srv.step] at hs
     split at hs
+    · simp only [Option.some.injEq] at hs
+      subst hs
+      apply SentInv.relaunch
+      exact ⟨rfl, hi.last, hi.chk, hi.uri⟩
     · simp at hs
-    · split at hs
-      · simp only [Option.some.injEq] at hs
-        subst hs
-        apply SentInv.relaunch
-        exact ⟨rfl, hi.last, hi.chk, hi.uri⟩
-      · simp at hs
   | acquire id =>
     apply frame <;>
     · simp only [Srv.step] at hs
